@@ -392,7 +392,8 @@ func (t *c31Template) requests(thorough bool) []c31Request {
 	// website endpoint and custom domain
 	for _, host := range []string{"bka.web.test", "bkb.web.test", "bka"} {
 		for _, m := range []string{"GET", "HEAD", "PUT", "POST", "DELETE"} {
-			for _, p := range []string{"/", "/k1", "/k1/", "/d", "/d/", "/missing", "/index.html", "/error.html"} {
+			// (the last three resolve to keys that are no valid object keys: invalid UTF-8, longer than 1024 bytes)
+			for _, p := range []string{"/", "/k1", "/k1/", "/d", "/d/", "/missing", "/index.html", "/error.html", "/%ff%fe", "/d/%c3%28/", "/" + strings.Repeat("x", 1100)} {
 				for _, ps := range [][]string{nil, {"versionId=null"}, {"tagging"}} {
 					out = append(out, c31Request{Host: host, Method: m, Path: p, Params: ps, HdrSet: "none"})
 				}
